@@ -48,6 +48,7 @@ LEVEL["decided"] += " (R09.11) no value an item could have is read as 'the sourc
 LEVEL["decided"] += ' (R09.12) a child leaves its loop only after the StopAsyncIteration of its own pull (decided on paths, with boolean flags tracked).'
 LEVEL["technique"] += '; operation histories of the evaluated tee (object model with generator frames) against the executed itertools.tee'
 LEVEL["decided"] += " (R09.13) the tee object refers to its children's buffers only through the list a finished child removes its buffer from (R20.8, shared); R09.6 also: the source is closed nowhere but in the clean-up conditioned on 'no buffer remains'."
+LEVEL["decided"] += " (R09.14) after every sequence of next / close operations that leaves every child done, the source is closed or exhausted (R04.9's tee histories, shared; the open finding F15 is visible here as well); the end of the source may be recognised by the private marker handed to anext() as its default."
 
 SUSPEND = ("await", "yield", "pull", "enter", "exit_cm")
 
